@@ -198,6 +198,9 @@ func verifMkRule(mask, elems, sub, nprom int) (rule Rule, want [verifKinds]int) 
 	}
 	if has(verifKRangeQuery) {
 		rule.RangeQuery = &RangeQuerySettings{Max: "1h", Comment: verifComment("rq"), Severity: verifSeverity("rq")}
+		if sub&16 != 0 {
+			rule.RangeQuery.Max = "" // `max` is a required attribute, but the empty string passes validation (side finding S1)
+		}
 		want[verifKRangeQuery]++
 	}
 	if has(verifKReport) {
@@ -225,15 +228,11 @@ func verifContains(l []string, s string) bool {
 	return found
 }
 
-// the known finding F1: parseRule registers the checks configured by range_query{} and report{} under "query/cost"
-func verifIsCostAlias(c checks.RuleChecker) bool {
-	switch x := c.(type) {
-	case checks.RangeQueryCheck:
-		return x.String() == "promql/range_query(1h)" // the rule{} block variant (the built-in one is per server)
-	case checks.ReportCheck:
-		return true
-	}
-	return false
+// the known finding F1: parseRule registers the checks configured by range_query{} and report{} under "query/cost".
+// The rule{} variant of the range_query check is the one without server tags (the built-in one is per server).
+func verifIsCostAlias(pr parsedRule) bool {
+	rep := pr.check.Reporter()
+	return verifOr(verifAnd(rep == "promql/range_query", len(pr.tags) == 0), rep == "rule/report")
 }
 
 // VerifHarness_Names — (N): every registration made by parseRule / baseRules uses the name the check reports under, each
@@ -274,13 +273,13 @@ func VerifHarness_Names() {
 
 	// (N) registered name == Reporter()
 	for _, pr := range prs {
-		if !verifIsCostAlias(pr.check) {
+		if !verifIsCostAlias(pr) {
 			verifAssert(pr.name == pr.check.Reporter(), "a check is registered under the name it reports under")
 		}
 	}
 	verifSig("C08-costname-registration", verifOr(mask&(1<<verifKRangeQuery) != 0, mask&(1<<verifKReport) != 0))
 	for _, pr := range prs {
-		if verifIsCostAlias(pr.check) {
+		if verifIsCostAlias(pr) {
 			verifReach("cost-alias")
 			verifAssert(pr.name == pr.check.Reporter(), "a check is registered under the name it reports under")
 		}
@@ -382,7 +381,8 @@ func verifRefDisabledBy(id verifCheckID, n string) bool {
 
 // VerifHarness_Algebra — (A): the enabled/disabled algebra, through the real Config.GetChecksForEntry.
 // parameters: mask, elems, sub, nprom as above; part/parts: chunk of the name list handled by this job; alg: 0 checks{disabled=[N]}  1 checks{enabled=[N]}  2 rule{disable=[N]}
-// 3 --offline (DisableOnlineChecks)  4 --disabled N (SetDisabledChecks, N concrete: one run per documented name);
+// 3 --offline (DisableOnlineChecks)  4 --disabled N (SetDisabledChecks, N concrete: one run per documented name)
+// 5 --enabled N (actionSetup stores the flag into Checks.Enabled without validation: N is any string);
 // state: the entry's change state (0 unmodified, 1 added, 2 modified, 3 removed, 4 renamed)
 func VerifHarness_Algebra() {
 	mask, elems, sub, nprom := verifParam("mask"), verifParam("elems"), verifParam("sub"), verifParam("nprom")
@@ -398,6 +398,10 @@ func VerifHarness_Algebra() {
 	if nprom > 0 {
 		tags = proms[0].Tags()
 	}
+
+	// side finding S1 (C18 territory): `range_query { max = "" }` passes validation and builds a RangeQueryCheck with neither a
+	// limit nor a server; its String() dereferences the nil server (SIGSEGV in isEnabled)
+	verifSig("C08-rangequery-emptymax-nilprom", verifAnd(mask&(1<<verifKRangeQuery) != 0, sub&16 != 0))
 
 	// the baseline: nothing enabled or disabled by name
 	base := Config{Checks: &Checks{}, Rules: []Rule{rule}}
@@ -417,6 +421,8 @@ func VerifHarness_Algebra() {
 		case 1:
 			cfg.Checks.Enabled = []string{n}
 			verifAssume(cfg.Checks.validate() == nil)
+		case 5:
+			cfg.Checks.Enabled = []string{n}
 		case 2:
 			extra := Rule{Disable: []string{n}}
 			verifAssume(extra.validate() == nil)
@@ -431,7 +437,7 @@ func VerifHarness_Algebra() {
 			switch alg {
 			case 0, 4:
 				keep = !verifRefDisabledBy(id, n)
-			case 1:
+			case 1, 5:
 				keep = verifOr(id.reporter == n, id.always)
 			case 2:
 				keep = id.reporter != n
